@@ -80,3 +80,106 @@ def hostile(w):
     except Exception as e:
         probs.append("message without children raised %r" % (e,))
     return {"reproduced": bool(probs), "detail": "; ".join(probs[:3]) or "catalogue handled without exception or collateral change"}
+
+
+@kind("driver.events")
+def events_oracle(w):
+    """C14 natively: configurable numbers of plain/coroutine/vetoing handlers on one element;
+    checks exactly-once invocation, order Write -> store+publication -> Change, veto semantics."""
+    import asyncio
+    from indi.device import Driver, properties
+    from indi.device.events import on, Write, Change, Read
+    from indi.routing import Router, Client
+    from indi import message
+    kindname = w.get("kind", "text")
+    op = w.get("op", "set_value")
+    probs = []
+
+    async def scenario(n_plain_w, n_coro_w, veto, n_change, same_value):
+        log = []
+        el_def = {"text": properties.Text("E", default="old"), "number": properties.Number("E", default=1.0, min=0, max=9),
+                  "light": properties.Light("E", default="Ok"), "blob": properties.BLOB("E")}[kindname]
+        vec_cls = {"text": properties.TextVector, "number": properties.NumberVector, "light": properties.LightVector, "blob": properties.BLOBVector}[kindname]
+
+        grp = properties.Group("MAIN", vectors=dict(v=vec_cls("V", elements=dict(e=el_def))))
+        dct = {"name": "DEV", "main": grp}
+
+        class _NS:
+            pass
+        Dev = _NS()
+        Dev.main = grp
+        for i in range(n_plain_w):
+            def h(self, ev, i=i):
+                log.append(("write", i, self.main.v.e._value, ev.new_value))
+                if veto and i == 0:
+                    ev.prevent_default = True
+            dct["pw%d" % i] = on(grp.v.e, Write)(h)
+        for i in range(n_coro_w):
+            async def hc(self, ev, i=i):
+                log.append(("write-coro", i, self.main.v.e._value, ev.new_value))
+            dct["cw%d" % i] = on(grp.v.e, Write)(hc)
+        for i in range(n_change):
+            def hch(self, ev, i=i):
+                log.append(("change", i, ev.old_value, ev.new_value, self.main.v.e._value))
+            dct["ch%d" % i] = on(grp.v.e, Change)(hch)
+        Dev = type(Driver)("Dev", (Driver,), dct)
+
+        class Rec(Client):
+            def message_from_device(self, m):
+                log.append(("publish", [c.value for c in m.children]))
+        r = Router()
+        r.register_client(Rec())
+        d = Dev(router=r)
+        e = d.main.v.e
+        old = e._value
+        from indi.device import values
+        new = {"text": "old" if same_value else "new", "number": 1.0 if same_value else 2.0, "light": "Ok" if same_value else "Busy",
+               "blob": values.BLOB(b"abc", ".x")}[kindname]
+        if op == "assign":
+            e.value = new
+        elif op in ("set_value", "write"):
+            e.set_value(new)
+        else:
+            _ = e.value
+        sync_log = list(log)
+        await asyncio.sleep(0)
+        await asyncio.sleep(0)
+        return old, new, sync_log, log, e._value
+
+    async def main():
+        for (npw, ncw, veto, nch, same) in [(1, 0, False, 1, False), (2, 1, False, 2, False), (1, 1, True, 1, False), (1, 0, False, 1, True), (0, 2, False, 1, False)]:
+            old, new, sync_log, log, cur = await scenario(npw, ncw, veto, nch, same)
+            tag = "plainW=%d coroW=%d veto=%s change=%d same=%s" % (npw, ncw, veto, nch, same)
+            w_calls = [x for x in sync_log if x[0] == "write"]
+            pubs = [i for i, x in enumerate(sync_log) if x[0] == "publish"]
+            changes = [i for i, x in enumerate(sync_log) if x[0] == "change"]
+            if op == "read":
+                continue
+            if op == "assign":
+                if w_calls or any(x[0] == "write-coro" for x in log):
+                    probs.append("%s: Write raised on direct assignment" % tag)
+            else:
+                if len(w_calls) != npw or any(x[2] != old for x in w_calls):
+                    probs.append("%s: plain Write handlers: %d calls, values seen %r (old %r)" % (tag, len(w_calls), [x[2] for x in w_calls], old))
+                if any(x[0] == "write-coro" for x in sync_log):
+                    probs.append("%s: coroutine Write handler ran synchronously" % tag)
+                if len([x for x in log if x[0] == "write-coro"]) != ncw:
+                    probs.append("%s: coroutine Write handlers ran %d times, expected %d" % (tag, len([x for x in log if x[0] == "write-coro"]), ncw))
+            vetoed = veto and op != "assign" and npw > 0
+            if vetoed:
+                if cur != old or pubs or changes:
+                    probs.append("%s: vetoed write changed/published/raised Change" % tag)
+                continue
+            if cur is not new and cur != new:
+                probs.append("%s: value is %r, expected %r" % (tag, cur, new))
+            if len(pubs) != 1:
+                probs.append("%s: %d updates published" % (tag, len(pubs)))
+            changed = (old != new)
+            if len(changes) != (nch if changed else 0):
+                probs.append("%s: Change handlers invoked %d times (changed=%s)" % (tag, len(changes), changed))
+            if pubs and changes and min(changes) < pubs[0]:
+                probs.append("%s: Change raised before publication" % tag)
+            if pubs and w_calls and max(i for i, x in enumerate(sync_log) if x[0] == "write") > pubs[0]:
+                probs.append("%s: Write handler ran after publication" % tag)
+    asyncio.run(main())
+    return {"reproduced": bool(probs), "detail": "; ".join(probs[:3]) or "event contract holds on the native scenarios"}
